@@ -66,6 +66,12 @@ Lemma h_put_ks_gen (P : fsT -> Prop) k (Q : unit -> fsT -> Prop) (E : fsT -> Pro
   (forall g, P g -> Q tt g) -> hoare P (put_ks k) Q E.
 Proof. intros H s Hs. cbn. auto. Qed.
 
+Lemma h_get_fs_eq {B} f0 (k : fsT -> M B) (Q : B -> fsT -> Prop) (E : fsT -> Prop) :
+  hoare (fun g => g = f0) (k f0) Q E -> hoare (fun g => g = f0) (bind get_fs k) Q E.
+Proof.
+  intros H s Hs. unfold bind, get_fs. change (w_fs (s_w s)) with (fs_of s). rewrite Hs. apply (H s Hs).
+Qed.
+
 (* a mutating primitive: skipped (pretend), refused (fault plan) or applied *)
 Lemma h_mutate (P : fsT -> Prop) e o act (Q : unit -> fsT -> Prop) (E : fsT -> Prop) :
   (forall g, P g -> E g) -> (forall g, P g -> Q tt g) -> hoare P act Q E ->
@@ -168,6 +174,15 @@ Proof.
   induction l as [|x r IH]; intros H ld; cbn [foldM]; [apply p_ret|].
   apply p_bind; [apply H; now left|]. intros ld'. apply IH. intros ld0 y Hy. apply H. now right.
 Qed.
+Lemma h_guard_then {A} (P : fsT -> Prop) b (m : M A) (Q : A -> fsT -> Prop) :
+  (forall g, P g -> E g) -> (b = true -> hoare P m Q E) -> hoare P (bind (guard b) (fun _ => m)) Q E.
+Proof.
+  intros HPE H s Hs. unfold bind, guard. destruct b; cbn.
+  - apply (H eq_refl s Hs).
+  - auto.
+Qed.
+Lemma p_guard_then {A} b (m : M A) : (b = true -> pres I E m) -> pres I E (bind (guard b) (fun _ => m)).
+Proof. apply h_guard_then. exact HE. Qed.
 (* a result-carrying triple is in particular invariant preservation *)
 Lemma p_of_hoare {A} (m : M A) (Q : A -> fsT -> Prop) :
   hoare I m Q E -> (forall a g, Q a g -> I g) -> pres I E m.
